@@ -22,6 +22,9 @@ type Plan struct {
 	Note    string     `json:"note,omitempty"`
 	Engine  string     `json:"engine,omitempty"`
 	Extra   *Extra     `json:"extra,omitempty"`
+	Con     *ConPlan   `json:"con,omitempty"`
+	// FixedSched: replay Sched (tolerantly) instead of drawing a schedule
+	FixedSched bool `json:"fixed_sched,omitempty"`
 }
 
 // Extra carries property-specific replay parameters.
@@ -49,6 +52,8 @@ type RunResult struct {
 	World    *World
 	Evals    int
 	Hash     uint64
+	Post     func() *Violation // checks that must run outside the synctest bubble
+	Sample   []string
 }
 
 func applyProfile(w *World, p *Profile) {
